@@ -36,7 +36,7 @@ PROOFS = [
              repl=" if (flagmademess)\n  {\n   seek_trunc(messfd,0);\n   if (unlink(messfn) == -1) return;\n  }\n if (flagmadeintd)\n  {\n   seek_trunc(intdfd,0);\n   if (unlink(intdfn) == -1) return;\n  }", expect=r"C02: mess/<id> is removed only after"),
         dict(name="trigger-before-link", file="qmail-queue.c", literal=True, pattern=" if (link(intdfn,todofn) == -1) die(66);\n\n triggerpull();", repl=" triggerpull();\n if (link(intdfn,todofn) == -1) die(66);\n", expect=r"C16"),
     ]),
-  dict(name="queue_sigalrm", properties=["C01"], entry="h_sigalrm", units=["harness.c"], mode="plain", covers=False, min_tagged=3,
+  dict(name="queue_sigalrm", properties=["C01", "C02"], entry="h_sigalrm", units=["harness.c"], mode="plain", covers=False, min_tagged=3,
     title="qmail-queue.c sigalrm(): the 24 h timeout exits 52 without touching the queue (files are left for the daemon's 36 h collection)",
     functions=["qmail-queue.c:sigalrm", "qmail-queue.c:die"],
     canaries=[dict(name="cleanup-in-sigalrm", file="qmail-queue.c", literal=True, pattern="{ /* thou shalt not clean up here */ die(52); }", repl="{ cleanup(); die(52); }", expect=r".")]),
